@@ -1,9 +1,11 @@
 import Gpc.Driver.Num
+import Gpc.Driver.Search
 open Gpc.Proto
 
 def dispatch (toks : List String) : String :=
   match toks with
   | "num" :: rest => Gpc.Driver.num rest
+  | "srch" :: rest => Gpc.Driver.srch rest
   | _ => "bad-op"
 
 partial def loop (h : IO.FS.Stream) (out : IO.FS.Stream) : IO Unit := do
